@@ -1,0 +1,14 @@
+//go:build verif && linux
+
+package ztp
+
+import "github.com/insomniacslk/dhcp/dhcpv4"
+
+// Verification seams for property C09 (decoder hammer in /verif): exported
+// wrappers around unexported functions, no behaviour of their own.
+
+// VerifC09ParseVendorOptions calls the real option-43 parser.
+func VerifC09ParseVendorOptions(data []byte) string { return parseVendorOptions(data) }
+
+// VerifC09ExtractNexusURL calls the real option 224 / 43 extraction on a DHCP ACK.
+func VerifC09ExtractNexusURL(ack *dhcpv4.DHCPv4) string { return extractNexusURL(ack) }
